@@ -90,6 +90,19 @@ known('C06', 'C06|OptimizationAbstract|TypeError|__should_stop__|bad operand typ
 known('C06', 'C06|OptimizationAbstract|TypeError|__should_stop__|< not supported between instances of flo',
       'EarlyStopping(min_delta=None) is accepted by its validator but the stop rule compares abs(diff) < min_delta',
       'any optimizer, early_stopping={patience: 2, min_delta: None}')
+known('C06', 'C06|BrainStormOptimization|IndexError|optimization_step|list index out of range',
+      'Brain Storm, same defect as the evolve() key: population_size not a multiple of m_clusters (or m_clusters=6 at '
+      'population 20) leaves fewer agents than indexed; which line raises depends on the seed',
+      'BrainStormOptimization, population_size=21, seed 4')
+known('C06', 'C06|ImprovedBrainStormOptimization|IndexError|optimization_step|list index out of range',
+      'Improved Brain Storm: same defect as Brain Storm', 'ImprovedBrainStormOptimization, population_size=21, seed 7')
+known('C06', 'C06|DwarfMongooseOptimization|ValueError|roulette_wheel_indexes|probabilities contain NaN',
+      'Dwarf Mongoose builds roulette probabilities from exp(-cost/mean cost): a NaN appears when the mean is 0 or the '
+      'exponent overflows; seed dependent', 'DwarfMongooseOptimization, mo2 3 cycles seed 5; cont2s seed 14')
+known('C06', 'C06|ImperialistCompetitiveOptimization|IndexError|random_selection|list index out of range',
+      'Imperialist Competitive: empire probabilities exp(-alpha*cost/max cost) become NaN when the maximal empire cost '
+      'is 0 (tie-heavy objective with exact zeros); random_selection then finds no index',
+      'ImperialistCompetitiveOptimization, cont3z, plateau objective, seed 5')
 
 FIXED = [
     "fixed: property=C07 0d03759 Task.seed typed float: every seeded run raised TypeError in np.random.seed",
